@@ -6,7 +6,9 @@ A hierarchy spec is {"root": "Expression"|"Variable"|"Call"|"Lookup",
                      "tag": str}            (class-name stem, CamelCase)
 Level i derives from level i-1 (level 0 from the root).  "D" levels are
 decorated with @expr_dataclass(); "L" levels are legacy classes using the
-init-args protocol (own __init__, __getinitargs__, init_arg_names).
+init-args protocol (own __init__, __getinitargs__, init_arg_names); "B" levels
+are behaviour-only undecorated subclasses (no fields, no __init__; only below a
+decorated ancestor).
 
 Classes are registered under unique names as attributes of this module, so
 dataclass creation, the mapper optimizer and pickle can find them; the same
@@ -57,6 +59,12 @@ def make_hierarchy(spec):
                 ns["__annotations__"] = {f: "ExpressionT" for f in new}
                 cls = type(name, (base,), ns)
                 cls = p.expr_dataclass()(cls)
+            elif lvl["kind"] == "B":
+                # behaviour-only subclass: undecorated, no fields, no __init__ of its
+                # own (e.g. class FieldVariable(Variable): mapper_method = ...)
+                if new:
+                    raise ValueError("a behaviour-only level has no fields")
+                cls = type(name, (base,), ns)
             else:
                 cls = _legacy_class(name, base, fields, new, ns)
             setattr(_THIS, name, cls)
